@@ -198,14 +198,9 @@ def gstepnn_does_not_increase_badness(self, result, OLD):
     c1, b1 = _objective(self, a0, np.asarray(result, dtype=np.float64))
     MON.last_chi2 = c1
     inc = _rel_increase(b0, b1)
-    eps = _eps_of(self)
-    if eps is not None and eps > 0:
-        # multiplicative rule with the smoothness term split between numerator and denominator:
-        # monotonicity is not a theorem I can rely on -> recorded, not asserted
-        MON.worst('gstepnn_smooth_badness_increase(recorded only)', max(inc, 0.0) if np.isfinite(inc) else inc)
-        return True
     MON.worst('gstepnn_badness_increase', max(inc, 0.0))
-    return inc <= TOL_MONO or MON.reject('chi2-monotone', 'gstepnn raised chi-square from %.17g to %.17g' % (b0, b1))
+    return inc <= TOL_MONO or MON.reject(
+        'chi2-monotone', 'gstepnn (epsilon=%r) raised the badness from %.17g to %.17g' % (self.epsilon, b0, b1))
 
 
 # ---- normbase -----------------------------------------------------------------------------------------
@@ -322,7 +317,7 @@ class C15(Check):
             'bases, cond(A^T W A) <= 1e6) with 0-60 % random zero weights, float64 and the pipeline\'s float32 b/sqivar, '
             'lazy attributes read in random order, against long-double QR; pcomp on N x M data with N > M and N <= M, '
             'correlation and covariance, standardize on/off, offsets up to 1e3 sigma; real HMF.solve() under icontract '
-            'contracts on astep/gstep/astepnn/gstepnn/normbase for rank-K+noise matrices (N 10-60, M 40-200, K 1-5, '
+            'contracts on astep/gstep/astepnn/gstepnn/normbase for rank-K+noise matrices (N 10-60, M 40-200 [quick: 10-40 x 40-140], K 1-5, '
             '0-15 % masked pixels with zero/wild/untouched flux, negative fluxes in default mode), epsilon in '
             '{None,0,0.1,10,1e3}, n_iter 2-8, each solved twice with the same seed under different global RNG state; '
             'pca_solve on float32 rank-K+noise spectra with masked pixels and fully masked columns, nkeep 1-4, niter 1-8, '
@@ -337,8 +332,10 @@ class C15(Check):
         'sub-problems, the analogue of "full-rank system"), no all-zero columns (documented limitation); for epsilon > 0 '
         'the g-update asserted is the Jacobi step the code documents, whose objective is provably non-increasing '
         '(2D - H = blockdiag(A_j) + eps * signless Laplacian >= 0)',
-        'HMF non-negative mode: non-negativity/finiteness asserted on every update; chi-square non-increase asserted for '
-        'astepnn (Lee-Seung, Hessian entrywise >= 0) and for gstepnn with epsilon None/0 only; recorded for epsilon > 0',
+        'HMF non-negative mode (non-negative data only): non-negativity/finiteness asserted on every update; the multiplicative '
+        'updates are x <- x - K^-1 (Qx - b) with K = diag((Q+ x)_i / x_i), so the objective changes by -v^T (2K - Q) v and '
+        '2K - Q = (K - Q+) + diag((A x)/x) + eps * signless Laplacian >= 0 (Lee-Seung lemma for the entrywise non-negative Q+): '
+        'badness (chi-square + smoothness penalty) non-increase is therefore asserted for astepnn and gstepnn at every epsilon',
         'pca_solve: float32 input as in the pipeline, nkeep <= generated rank, npix > nobj + nkeep; projections checked '
         'through the normal-equation residual relative to sum |G| w (|y| + |G||a|), because the eigenspectra are returned '
         'rounded to float32 (eps32 = 1.2e-7, tolerance 1e-5)',
@@ -353,6 +350,9 @@ class C15(Check):
         'hmf_solves', 'hmf_gstep_smooth_updates', 'hmf_same_seed_pairs', 'hmf_default_negative_flux_runs',
         'chi2_zero_weight_cases', 'chi2_discriminating', 'pcomp_wide_cases', 'pca_projections', 'pca_masked_columns',
     )
+    REQUIRED_REACH = {'spec1d.HMF.astep': 1.0, 'spec1d.HMF.gstep': 1.0, 'spec1d.HMF.astepnn': 1.0, 'spec1d.HMF.gstepnn': 1.0,
+                      'spec1d.HMF.reorder': 1.0, 'spec1d.HMF.normbase': 1.0, 'spec1d.HMF.iterate': 0.85,
+                      'spec1d.pca_solve': 0.75, 'math.computechi2.covar': 1.0, 'pcomp.pcomp.coefficients': 1.0}
     MIN_NONTRIVIAL = 8
     QUICK_SHARDS = 4
 
@@ -381,12 +381,12 @@ class C15(Check):
         self.margins = {}
 
     def teardown(self):
-        H = self.S1.HMF
-        for name, orig in self._saved.items():
-            setattr(H, name, orig)
+        for name, orig in getattr(self, '_saved', {}).items():
+            setattr(self.S1.HMF, name, orig)
         self._saved = {}
         self.rec.unwrap_all()
-        self._log.setLevel(self._loglevel)
+        if getattr(self, '_log', None) is not None:
+            self._log.setLevel(self._loglevel)
 
     def budget(self, tier):
         q = tier == 'quick'
